@@ -40,9 +40,14 @@ func (self *Interpreter) callFunc(span errors.Span, val value.Value, args []ast.
 		}
 
 		self.callStackSize++
+		// The body sees the globals of its module and its own scopes, not the variables of its caller
+		// (which are still on the scope stack if the caller belongs to the same module).
+		module := self.currentModule
+		savedScopes := module.scopes
+		module.scopes = []map[string]*value.Value{savedScopes[0]}
 		self.pushScope()
 		defer func() {
-			self.popScope()
+			module.scopes = savedScopes
 			self.callStackSize--
 			if previousModule != nil {
 				self.switchModule(*previousModule)
